@@ -77,10 +77,38 @@ Theorem empty_variable_is_unset : forall w name,
 Proof. intros. apply empty_env_unset_l; auto using gen_empty_env_fact. Qed.
 Print Assumptions empty_variable_is_unset.
 
+(* BindFlagsToEnv — several flags bound to one key: a member that was explicitly set wins over environment, file and
+   defaults whatever stands in front of it in the set — nil members (Lookup of an undefined flag) and members that were not
+   set, in any number and order.  Needs: both scans of multiFlags (HasChanged, ValueString) SKIP nil members. *)
+Lemma gen_multi_facts : multi_facts_ok gen_facts.
+Proof. split; vm_compute; reflexivity. Qed.
+Theorem explicitly_set_member_wins : forall w sc k t d ty pre dm a post,
+  NoDup (map fst (leaves [] sc)) -> In (k, (t, d)) (leaves [] sc) ->
+  is_flagkey gen_facts k = false -> unshadowed gen_facts w k ->
+  lookup (flagkey gen_facts (w_prefix w) k) (bound_members gen_facts w) = Some (ty, pre ++ MFlag dm (Some a) :: post) ->
+  Forall quiet pre ->
+  final_val gen_facts w sc k = Some (rep_flag ty a).
+Proof. intros. eapply set_member_wins_l; eauto using gen_link_facts, gen_bind_facts, gen_multi_facts. Qed.
+Print Assumptions explicitly_set_member_wins.
+
+(* … and it is false of a HasChanged whose scan STOPS at a nil member: the variable wins over the set flag *)
+Definition nilstop_facts : facts :=
+  with_lf expected (mkLF expected_steps false true true false true true true NilStop NilSkip).
+Definition nilstop_world : world :=
+  mkW (str_of "app") [(str_of "APP_DB", VStr (str_of "db from env"))]
+      [(str_of "APP_DB", TStr, [MNil; MFlag (AStr []) (Some (AStr (str_of "db from flag")))])] [].
+Definition nilstop_schema : schema := Node VOwnOnly [(str_of "DB", str_of "db", Leaf TStr (AStr []) false)].
+Theorem explicitly_set_member_nil_stop_refuted :
+  final_val nilstop_facts nilstop_world nilstop_schema (str_of "db") = Some (VStr (str_of "db from env")) /\
+  final_val expected nilstop_world nilstop_schema (str_of "db") = Some (VStr (str_of "db from flag")) /\
+  unshadowed expected nilstop_world (str_of "db").
+Proof. split; [|split]; [vm_compute; reflexivity | vm_compute; reflexivity | constructor; vm_compute; reflexivity]. Qed.
+Print Assumptions explicitly_set_member_nil_stop_refuted.
+
 (* D23 — the code BEFORE the first repair (flags linked before the file is merged) does not have the property:
    empty supplied default, value in the file, bound flag not set with a non-empty default: the flag default wins. *)
 Definition d23_world : world :=
-  mkW (str_of "app") [] [(str_of "NAME", TStr, AStr (str_of "flagdefault"), None)] [(str_of "name", VStr (str_of "fromfile"))].
+  mkW (str_of "app") [] [(str_of "NAME", TStr, [MFlag (AStr (str_of "flagdefault")) None])] [(str_of "name", VStr (str_of "fromfile"))].
 Definition d23_schema : schema := Node VOwnOnly [(str_of "Name", str_of "name", Leaf TStr (AStr []) false)].
 
 Theorem load_precedence_before_repair_refuted :
@@ -101,7 +129,7 @@ Print Assumptions load_precedence_before_repair_refuted.
 (* the code BEFORE the second repair (the prefix stripped from structure keys in linkFlagKeysToStructureKeys):
    under prefix "t" the key "title" was given the flag key of a field "itle"; its own, explicitly set flag was ignored. *)
 Definition strip_world : world :=
-  mkW (str_of "t") [] [(str_of "T_TITLE", TStr, AStr [], Some (AStr (str_of "fromflag")))] [].
+  mkW (str_of "t") [] [(str_of "T_TITLE", TStr, [MFlag (AStr []) (Some (AStr (str_of "fromflag")))])] [].
 Definition strip_schema : schema := Node VOwnOnly [(str_of "Title", str_of "title", Leaf TStr (AStr (str_of "dflt")) false)].
 
 Theorem load_precedence_prefix_strip_refuted :
@@ -192,8 +220,8 @@ Proof. constructor; vm_compute; reflexivity. Qed.
 Definition demo_world : world :=
   mkW (str_of "Test")
       [(str_of "TEST_DUMMY_CONFIG_DB", VStr (str_of "envdb")); (str_of "TEST_DUMMY_CONFIG_PORT", VText 9090)]
-      [(str_of "TEST_DUMMY_CONFIG_DB", TStr, AStr (str_of "fd"), Some (AStr (str_of "flagdb")));
-       (str_of "dummy_config_user", TStr, AStr (str_of "a user"), None)]
+      [(str_of "TEST_DUMMY_CONFIG_DB", TStr, [MNil; MFlag (AStr (str_of "fd")) None; MFlag (AStr (str_of "fd")) (Some (AStr (str_of "flagdb")))]);
+       (str_of "dummy_config_user", TStr, [MFlag (AStr (str_of "a user")) None])]
       [(str_of "Dummy_Config.Port", VNum 304); (str_of "dummy_config.HOST", VStr (str_of "host2"))].
 Definition demo_schema : schema :=
   Node VEmbFirst [(str_of "TestString", str_of "dummy_string", Leaf TStr (AStr (str_of "s")) true);
